@@ -156,4 +156,177 @@ theorem layout_imgV : ∀ (va vb : SVariantL), va.length = vb.length → layoutV
     | succ i => simp only [variantAt]; exact ihr i
 end
 
+/-! ### the same for memory as a whole, heap data of collections included -/
+
+theorem holdsElems_congr (mem : Mem) (stride : Nat) (t t' : Schema) (h : ∀ base x, holdsAt mem base t x = holdsAt mem base t' x) :
+    ∀ (l : VL) (base : Nat), holdsElems mem base stride t l = holdsElems mem base stride t' l
+  | .nil, _ => by simp [holdsElems]
+  | .cons x xs, base => by simp [holdsElems, h base x, holdsElems_congr mem stride t t' h xs (base + stride)]
+
+
+/-- same variants, as far as memory is concerned -/
+def VariantsAgreeH (mem : Mem) (va vb : SVariantL) : Prop :=
+  ∀ i, match variantAt va i, variantAt vb i with
+    | some (da, fa), some (db, fb) => da = db ∧ ∀ base l, holdsFields mem base fa l = holdsFields mem base fb l
+    | none, none => True
+    | _, _ => False
+
+mutual
+theorem layout_holds (mem : Mem) : ∀ (a b : Schema), layoutCompatible a b = true →
+    ∀ base x, holdsAt mem base a x = holdsAt mem base b x
+  | .struct _ sa aa fa, b, h => by
+    cases b with
+    | struct nb sb ab fb =>
+      simp only [layoutCompatible, Bool.and_eq_true, decide_eq_true_eq] at h
+      obtain ⟨⟨⟨⟨⟨hl, _⟩, _⟩, _⟩, _⟩, hf⟩ := h
+      intro base x
+      cases x with
+      | tup l => simp only [holdsAt]; exact layout_holdsF mem fa fb hl hf base l
+      | _ => simp [holdsAt]
+    | _ => simp [layoutCompatible] at h
+  | .enum _ va da ea sa aa, b, h => by
+    cases b with
+    | enum nb vb db eb sb ab =>
+      simp only [layoutCompatible, Bool.and_eq_true, decide_eq_true_eq] at h
+      obtain ⟨⟨⟨⟨⟨⟨⟨⟨_, _⟩, _⟩, _⟩, _⟩, _⟩, hd⟩, hl⟩, hv⟩ := h
+      intro base x
+      cases x with
+      | alt i v =>
+        cases v with
+        | tup l =>
+          simp only [holdsAt]
+          have := layout_holdsV mem va vb hl hv i
+          cases h1 : variantAt va i with
+          | none =>
+            cases h2 : variantAt vb i with
+            | none => rfl
+            | some q => rw [h1, h2] at this; exact absurd this (by simp)
+          | some p =>
+            cases h2 : variantAt vb i with
+            | none => rw [h1, h2] at this; exact absurd this (by simp)
+            | some q =>
+              obtain ⟨d1, f1⟩ := p
+              obtain ⟨d2, f2⟩ := q
+              rw [h1, h2] at this
+              simp only at this
+              obtain ⟨e1, e2⟩ := this
+              simp only [e1, hd, e2 base l]
+        | _ => simp [holdsAt]
+      | _ => simp [holdsAt]
+    | _ => simp [layoutCompatible] at h
+  | .prim pa, b, h => by
+    cases b with
+    | prim pb =>
+      simp only [layoutCompatible, Bool.and_eq_true, decide_eq_true_eq] at h
+      obtain ⟨_, e⟩ := h
+      subst e
+      exact fun _ _ => rfl
+    | _ => simp [layoutCompatible] at h
+  | .vector ta la, b, h => by
+    cases b with
+    | vector tb lb =>
+      simp only [layoutCompatible, Bool.and_eq_true, bne_iff_ne, ne_eq, beq_iff_eq] at h
+      obtain ⟨⟨⟨ht, _⟩, _⟩, el⟩ := h
+      subst el
+      have hs := (layout_img ta tb ht).1
+      have hi := layout_holds mem ta tb ht
+      intro base x
+      cases x with
+      | seq l =>
+        simp only [holdsAt, hs]
+        cases la with
+        | unknown => rfl
+        | _ =>
+          cases headerAt mem base _ with
+          | none => rfl
+          | some pn =>
+            obtain ⟨ptr, n⟩ := pn
+            cases schemaSize tb with
+            | none => rfl
+            | some k => simp only [holdsElems_congr mem k ta tb hi l ptr]
+      | _ => simp [holdsAt]
+    | _ => simp [layoutCompatible] at h
+  | .array ta na, b, h => by
+    cases b with
+    | array tb nb =>
+      simp only [layoutCompatible, Bool.and_eq_true, decide_eq_true_eq] at h
+      obtain ⟨_, ht⟩ := h
+      have hs := (layout_img ta tb ht).1
+      have hi := layout_holds mem ta tb ht
+      intro base x
+      cases x with
+      | tup l =>
+        simp only [holdsAt, hs]
+        cases schemaSize tb with
+        | none => rfl
+        | some k => exact holdsElems_congr mem k ta tb hi l base
+      | _ => simp [holdsAt]
+    | _ => simp [layoutCompatible] at h
+  | .zeroSize, b, h => by
+    cases b with
+    | zeroSize => exact fun _ _ => rfl
+    | _ => simp [layoutCompatible] at h
+  | .boxed ta, b, h => by
+    cases b with
+    | boxed tb => exact fun _ _ => by simp [holdsAt]
+    | _ => simp [layoutCompatible] at h
+  | .reference ta, b, h => by
+    cases b with
+    | reference tb => exact fun _ _ => by simp [holdsAt]
+    | _ => simp [layoutCompatible] at h
+  | .slice ta, b, h => by
+    cases b with
+    | slice tb => exact fun _ _ => by simp [holdsAt]
+    | _ => simp [layoutCompatible] at h
+  | .option _, b, h => by cases b <;> simp [layoutCompatible] at h
+  | .undefined, b, h => by cases b <;> simp [layoutCompatible] at h
+  | .custom _, b, h => by cases b <;> simp [layoutCompatible] at h
+  | .str, b, h => by cases b <;> simp [layoutCompatible] at h
+  | .trait _ _, b, h => by cases b <;> simp [layoutCompatible] at h
+  | .fnClosure _ _, b, h => by cases b <;> simp [layoutCompatible] at h
+  | .recursion _, b, h => by cases b <;> simp [layoutCompatible] at h
+  | .stdIoError, b, h => by cases b <;> simp [layoutCompatible] at h
+  | .future _ _ _ _, b, h => by cases b <;> simp [layoutCompatible] at h
+  | .uninitSlice, b, h => by cases b <;> simp [layoutCompatible] at h
+  | .utcTimestamp, b, h => by cases b <;> simp [layoutCompatible] at h
+theorem layout_holdsF (mem : Mem) : ∀ (fa fb : SFieldL), fa.length = fb.length → layoutFields fa fb = true →
+    ∀ base l, holdsFields mem base fa l = holdsFields mem base fb l
+  | .nil, .nil, _, _ => fun _ _ => rfl
+  | .nil, .cons _ _ _ _, hl, _ => by simp [SFieldL.length] at hl
+  | .cons _ _ _ _, .nil, hl, _ => by simp [SFieldL.length] at hl
+  | .cons _ ta oa ra, .cons _ tb ob rb, hl, h => by
+    simp only [SFieldL.length, Nat.add_right_cancel_iff] at hl
+    simp only [layoutFields, Bool.and_eq_true] at h
+    obtain ⟨h1, h2⟩ := h
+    have ihr := layout_holdsF mem ra rb hl h2
+    intro base l
+    cases oa with
+    | none => simp at h1
+    | some x =>
+      cases ob with
+      | none => simp at h1
+      | some y =>
+        simp only [Bool.and_eq_true, decide_eq_true_eq] at h1
+        obtain ⟨e, ht⟩ := h1
+        subst e
+        have hi := layout_holds mem ta tb ht
+        cases l with
+        | nil => simp [holdsFields]
+        | cons v vs => simp only [holdsFields, hi, ihr]
+theorem layout_holdsV (mem : Mem) : ∀ (va vb : SVariantL), va.length = vb.length → layoutVariants va vb = true → VariantsAgreeH mem va vb
+  | .nil, .nil, _, _ => fun i => by simp [variantAt]
+  | .nil, .cons _ _ _ _, hl, _ => by simp [SVariantL.length] at hl
+  | .cons _ _ _ _, .nil, hl, _ => by simp [SVariantL.length] at hl
+  | .cons _ da fa ra, .cons _ db fb rb, hl, h => by
+    simp only [SVariantL.length, Nat.add_right_cancel_iff] at hl
+    simp only [layoutVariants, Bool.and_eq_true, decide_eq_true_eq] at h
+    obtain ⟨⟨⟨hd, hfl⟩, hf⟩, hr⟩ := h
+    have ihf := layout_holdsF mem fa fb hfl hf
+    have ihr := layout_holdsV mem ra rb hl hr
+    intro i
+    cases i with
+    | zero => simp only [variantAt]; exact ⟨hd, ihf⟩
+    | succ i => simp only [variantAt]; exact ihr i
+end
+
 end Sfv
